@@ -70,6 +70,8 @@ FIRST_CONTACT = {   # seeds the checks missed when first run against them, and w
     "C01-10": "missed -> lemma: the interval probability of the adapted tree belongs to ITS sampler (two samplers, two models, same grid; engine: dict keys that are tuples with symbolic entries)",
     "C01-11": "missed -> lemma: create_q_vector for a second measure on the same grid object returns THAT measure's cell masses",
     "C04-11": "missed -> lemma: compute_mu_h against create_q_vector under an ABSTRACT grid.middle (mu_h = sum of state x rate over the same cells) + probability-step grid in the native mean battery",
+    "C14-11": "missed by C14 (caught by C02's joint lemma on the inversion sampler and the stateful index projection) -> that unit now also runs under C14",
+    "C20-9": "missed -> contract case: a second ATM calibration after one with the same spot / maturity / volatility but another rate and dividend yield (module-level table)",
     "C08-10": "missed by C08 (C15's fixed-date pre-computation lemma, restated at the level of the Poisson generator, catches it) -> that unit now also runs under C08",
 }
 
